@@ -110,35 +110,36 @@ Definition wf (cs : list node) : bool := wf_level cs && forallb wf_node cs.
    body (deep 1, chain 0); [[[m]; m']] is harmless (m' absorbs the deficit); [[[m1; m2; m3]]] leaks m3.)
    [known_D14 t]: some component strictly below the root leaks into its parent.  Depth: a leak needs a
    grandchild of a non-root component, so it needs nesting depth >= 3 (root = 0). *)
+(* (structure counts, in nat: they are bounded by the size of the tree and only ever compared) *)
 Definition is_body (nd : node) : bool := match nd with NMod _ _ | NComp _ => true | _ => false end.
-Fixpoint desc_node (nd : node) : N :=
+Fixpoint desc_node (nd : node) : nat :=
   match nd with
   | NMod _ _ => 1
-  | NComp cs => 1 + fold_right (fun c n => desc_node c + n) 0 cs
-  | _ => 0
-  end.
-Definition desc (cs : list node) : N := fold_right (fun c n => desc_node c + n) 0 cs.
-Definition children (cs : list node) : N := N.of_nat (length (filter is_body cs)).
-Definition deep (cs : list node) : N := desc cs - children cs.
-Fixpoint chain_node (nd : node) : N :=
+  | NComp cs => S (fold_right (fun c n => desc_node c + n) O cs)
+  | _ => O
+  end%nat.
+Definition desc (cs : list node) : nat := fold_right (fun c n => desc_node c + n)%nat O cs.
+Definition children (cs : list node) : nat := length (filter is_body cs).
+Definition deep (cs : list node) : nat := (desc cs - children cs)%nat.
+Fixpoint chain_node (nd : node) : nat :=
   match nd with
   | NMod _ _ => 1
   | NComp cs =>
-      1 + (fix last_chain (l : list node) : N :=
-             match l with
-             | [] => 0
-             | [x] => chain_node x
-             | _ :: r => last_chain r
-             end) cs
-  | _ => 0
-  end.
-Fixpoint chain (cs : list node) : N :=
+      S ((fix last_chain (l : list node) : nat :=
+            match l with
+            | [] => O
+            | [x] => chain_node x
+            | _ :: r => last_chain r
+            end) cs)
+  | _ => O
+  end%nat.
+Fixpoint chain (cs : list node) : nat :=
   match cs with
-  | [] => 0
+  | [] => O
   | [x] => chain_node x
   | _ :: r => chain r
   end.
-Definition leaks (cs : list node) : bool := chain cs <? deep cs.
+Definition leaks (cs : list node) : bool := Nat.ltb (chain cs) (deep cs).
 Fixpoint d14_node (nd : node) : bool :=
   match nd with
   | NComp cs => leaks cs || existsb d14_node cs
